@@ -1,11 +1,191 @@
 package main
 
+import (
+	"go/ast"
+	"go/types"
+	"sort"
+)
+
+// lockTraceOn is lockTrace for an arbitrary object name (receiver or parameter): the straight-line
+// sequence of <obj>.mu.(R)Lock/(R)Unlock calls (defer marked) and reads/writes of <obj>.keys.
+func lockTraceOn(fd *ast.FuncDecl, obj string) []string {
+	var out []string
+	if fd == nil {
+		return []string{"<function not found>"}
+	}
+	var visit func(n ast.Node, deferred bool)
+	visit = func(n ast.Node, deferred bool) {
+		ast.Inspect(n, func(m ast.Node) bool {
+			switch t := m.(type) {
+			case *ast.DeferStmt:
+				visit(t.Call, true)
+				return false
+			case *ast.CallExpr:
+				s := types.ExprString(t.Fun)
+				for _, op := range []string{"RLock", "RUnlock", "Lock", "Unlock"} {
+					if s == obj+".mu."+op {
+						if deferred {
+							out = append(out, "defer "+op)
+						} else {
+							out = append(out, op)
+						}
+						return false
+					}
+				}
+			case *ast.AssignStmt:
+				for _, l := range t.Lhs {
+					if types.ExprString(l) == obj+".keys" {
+						for _, r := range t.Rhs {
+							visit(r, deferred)
+						}
+						out = append(out, "write keys")
+						return false
+					}
+				}
+			case *ast.SelectorExpr:
+				if types.ExprString(t) == obj+".keys" {
+					out = append(out, "read keys")
+					return false
+				}
+			}
+			return true
+		})
+	}
+	visit(fd.Body, false)
+	return out
+}
+
+// guardedFieldUsers lists every function of the package whose body selects `.keys` or `.mu` on
+// anything (closed-world fact: the lock protocol has to be checked for exactly these functions).
+func guardedFieldUsers(p *pkg) []string {
+	var out []string
+	for _, f := range p.files {
+		for _, d := range f.Decls {
+			fd, ok := d.(*ast.FuncDecl)
+			if !ok || fd.Body == nil {
+				continue
+			}
+			uses := false
+			ast.Inspect(fd.Body, func(n ast.Node) bool {
+				if se, ok := n.(*ast.SelectorExpr); ok && (se.Sel.Name == "keys" || se.Sel.Name == "mu") {
+					uses = true
+				}
+				return true
+			})
+			if !uses {
+				continue
+			}
+			name := fd.Name.Name
+			if fd.Recv != nil && len(fd.Recv.List) == 1 {
+				t := fd.Recv.List[0].Type
+				if s, ok := t.(*ast.StarExpr); ok {
+					t = s.X
+				}
+				name = types.ExprString(t) + "." + name
+			}
+			out = append(out, name)
+		}
+	}
+	sort.Strings(out)
+	return out
+}
+
+// tlsConfigLiteral lists "Field: value" for the fields of the first `tls.Config` composite literal of fd.
+func tlsConfigLiteral(fd *ast.FuncDecl) []string {
+	if fd == nil {
+		return []string{"<function not found>"}
+	}
+	var out []string
+	done := false
+	ast.Inspect(fd, func(n ast.Node) bool {
+		cl, ok := n.(*ast.CompositeLit)
+		if !ok || done || cl.Type == nil || types.ExprString(cl.Type) != "tls.Config" {
+			return true
+		}
+		done = true
+		for _, e := range cl.Elts {
+			if kv, ok := e.(*ast.KeyValueExpr); ok {
+				k := types.ExprString(kv.Key)
+				if k == "Certificates" {
+					out = append(out, k)
+				} else {
+					out = append(out, k+": "+types.ExprString(kv.Value))
+				}
+			}
+		}
+		return false
+	})
+	return out
+}
+
+// assignments lists "lhs = rhs" for the plain assignments of fd whose left side is a selector expression.
+func selectorAssignments(fd *ast.FuncDecl) []string {
+	if fd == nil {
+		return []string{"<function not found>"}
+	}
+	var out []string
+	ast.Inspect(fd, func(n ast.Node) bool {
+		as, ok := n.(*ast.AssignStmt)
+		if !ok || len(as.Lhs) != 1 || len(as.Rhs) != 1 {
+			return true
+		}
+		if _, ok := as.Lhs[0].(*ast.SelectorExpr); ok {
+			out = append(out, types.ExprString(as.Lhs[0])+" = "+types.ExprString(as.Rhs[0]))
+		}
+		return true
+	})
+	return out
+}
+
+// constLiteral returns the literal text of a package-level `const name = <literal>`.
+func constLiteral(p *pkg, name string) string {
+	for _, f := range p.files {
+		for _, d := range f.Decls {
+			gd, ok := d.(*ast.GenDecl)
+			if !ok {
+				continue
+			}
+			for _, sp := range gd.Specs {
+				vs, ok := sp.(*ast.ValueSpec)
+				if !ok {
+					continue
+				}
+				for i, n := range vs.Names {
+					if n.Name == name && i < len(vs.Values) {
+						if bl, ok := vs.Values[i].(*ast.BasicLit); ok {
+							return bl.Value
+						}
+						return "<not a literal: " + types.ExprString(vs.Values[i]) + ">"
+					}
+				}
+			}
+		}
+	}
+	return "<not found>"
+}
+
 func init() {
 	register(func() {
 		// ---- mtls lock discipline
 		mt := load("rpc/mtls", false)
+		w := func(fn string) string { return "rpc/mtls/mtls.go " + fn }
 		for _, fn := range []string{"Replace", "Keys", "isValidPublicKey", "VerifyPeerCertificate"} {
-			addStrs("mtls_"+fn+"_trace", mt.lockTrace(mt.funcDecl("PublicKeys", fn)), "rpc/mtls/mtls.go "+fn, "C20")
+			addStrs("mtls_"+fn+"_trace", mt.lockTrace(mt.funcDecl("PublicKeys", fn)), w(fn), "C20")
 		}
+		// the part of Replace that copies the *source* list (parameter `pubs`) under the source's read lock
+		addStrs("mtls_Replace_src_trace", lockTraceOn(mt.funcDecl("PublicKeys", "Replace"), "pubs"), w("Replace (parameter pubs)"), "C20")
+		addStrs("mtls_guarded_field_users", guardedFieldUsers(mt), "rpc/mtls/mtls.go (every function selecting .keys or .mu)", "C20")
+		// ---- decision function
+		addStrs("mtls_VerifyPeerCertificate_cmps", mt.comparisons(mt.funcDecl("PublicKeys", "VerifyPeerCertificate"), "len("), w("VerifyPeerCertificate"), "C20")
+		addStrs("mtls_pubKeyFromCert_cmps", mt.comparisons(mt.funcDecl("", "pubKeyFromCert"), "PublicKeyAlgorithm"), w("pubKeyFromCert"), "C20")
+		addStrs("mtls_isValidPublicKey_cmps", mt.comparisons(mt.funcDecl("PublicKeys", "isValidPublicKey"), "ConstantTimeCompare"), w("isValidPublicKey"), "C20")
+		// ---- TLS configuration
+		addStrs("mtls_tlsConfig_fields", tlsConfigLiteral(mt.funcDecl("", "newMutualTLSConfig")), w("newMutualTLSConfig"), "C20")
+		addStrs("mtls_NewTransportSigner_assigns", selectorAssignments(mt.funcDecl("", "NewTransportSigner")), w("NewTransportSigner"), "C20")
+
+		// ---- C19: nesting-depth limit of timestamped stream values at decode
+		llo := load("llo", false) // untyped: the constant is a plain literal
+		addNat("llo_maxTimestampedStreamValueNesting", constLiteral(llo, "maxTimestampedStreamValueNesting"), "llo/stream_value.go", "C19")
+		addStrs("llo_TSV_unmarshalBinary_cmps", llo.comparisons(llo.funcDecl("TimestampedStreamValue", "unmarshalBinary"), "LLOStreamValue_TimestampedStreamValue"), "llo/stream_value.go TimestampedStreamValue.unmarshalBinary", "C19")
 	})
 }
